@@ -11,7 +11,7 @@
 From Coq Require Import List Arith NArith ZArith Bool Lia ZifyBool ZifyN ZifyNat String.
 Import ListNotations.
 Require Import PyStr Regex Regexes NumLit Num NumSpec HeaderLine Tables SectionParse DataRead Read TextWrap Writer.
-Require Import HeaderLineSpec HeaderLineFragments HeaderLineProofs BlankMnemonicProofs NumProofs ItemsBindProofs OrderTableProofs.
+Require Import HeaderLineSpec HeaderLineFragments HeaderLineProofs BlankMnemonicProofs NumProofs IntTextProofs ItemsBindProofs OrderTableProofs.
 Open Scope string_scope.
 Open Scope list_scope.
 Open Scope N_scope.
@@ -883,4 +883,16 @@ Proof.
     + apply line_reads_conf; assumption.
     + apply line_reads_blank; assumption.
   - eexists _, acc'. split; [reflexivity|]. split; [exact Hpb|]. exact Hmeta.
+Qed.
+
+(* ====================================================================================== *)
+(* 10. integer values read back exactly (no oracle)                                        *)
+(* ====================================================================================== *)
+Lemma read_value_int fstr k name z :
+  k <> KCurves -> (k = KParameter \/ is_number_string name = false) -> in_int64 z = true ->
+  read_value k name (vstr fstr (VInt z)) = VInt z.
+Proof.
+  intros Hc Hn Hz. cbn [vstr]. unfold read_value.
+  destruct k; try congruence; try (apply num_z_to_str; exact Hz);
+    destruct Hn as [Hn|Hn]; try discriminate Hn; rewrite Hn; apply num_z_to_str; exact Hz.
 Qed.
